@@ -6,7 +6,7 @@ from ..linform import lin, show_lin
 from ..program import AnalysisError
 from ..rules import calls, is_call, is_mcall, mcalls, mentions, mentions_any
 from ..terms import C, Evaluator, G, P, is_t, mk_proj, show, subterms
-from .common import Obs, arms_of, call0, choices_of, cond_has, ctor_fields, is_zero, retval_of, score_of, tuple_n
+from .common import main_ret, Obs, arms_of, call0, choices_of, cond_has, ctor_fields, is_zero, retval_of, score_of, tuple_n
 from .distribution import is_tag
 
 MOD = "combinators/vmap.py"
@@ -97,7 +97,7 @@ def analyse(obs: Obs, prog):
         lf = mk_proj(("call", G("jax.tree_util.tree_leaves"), (("leaf", P("args")),), ()), 0)
         ax = [x for x in subterms(body) if is_t(x, "leaf") and x[1] != P("args")]
         okl = is_t(body, "phi") and body[3] == C(None) and len(ax) >= 1 and body[2] == ("index", ("attr", lf, "shape"), ax[0])
-    obs.add({"C11", "C01"}, "TRACE-LENGTH", "Vmap._static_broadcast_dim_length", okl, derived=t, expected="first non-None of tree_map(axis, x -> x.shape[axis] if axis is not None else None, in_axes, args)", where=W(V, "_static_broadcast_dim_length"))
+    obs.add({"C11", "C01", "C04"}, "TRACE-LENGTH", "Vmap._static_broadcast_dim_length", okl, derived=t, expected="first non-None of tree_map(axis, x -> x.shape[axis] if axis is not None else None, in_axes, args)", where=W(V, "_static_broadcast_dim_length"))
     # ---------------------------------------------------------------- accessors
     r = ev.eval_fn(VT.methods["get_retval"], VT.module, VT)
     obs.add({"C11", "C01"}, "TRACE-ACCESSOR", "VmapTrace.get_retval", r.ret == retval_of(("attr", SELF, "inner")), derived=r.ret, expected="self.inner.get_retval() (stacked element returns)", where=W(VT, "get_retval"))
@@ -148,7 +148,7 @@ def analyse(obs: Obs, prog):
     # ---------------------------------------------------------------- edit_choice_map
     r = ev.eval_fn(V.methods["edit_choice_map"], V.module, V)
     w = W(V, "edit_choice_map")
-    q = tuple_n(r.ret, 4, "Vmap.edit_choice_map")
+    q = tuple_n(main_ret(obs, r, "Vmap.edit_choice_map", w, {"C05", "C11"}), 4, "Vmap.edit_choice_map")
     PR = ("call", ("attr", DIFF, "tree_primal"), (P("argdiffs"),), ())
     req = ("ctor", "Update", (("call", P("constraint"), (elem(arange(tl)),), ()),), ())
     inner = ("call", ("attr", GF, "edit"), (elem(split(P("key"), tl)), elem(("attr", P("trace"), "inner")), req, axel(P("argdiffs"))), ())
